@@ -62,3 +62,13 @@ Example C10_example :
     (match import_model (render 3 A ["instance generation parameters"%string]) 3 true with
      | Ok M => M | Crash _ => denote 3 false A end) = true.
 Proof. vm_compute. split; reflexivity. Qed.
+
+(* leading zeros and blanks on a concrete 3-agent file: "001:  (1 002)" ... is read as the same instance *)
+Example C10_leading_zeros_example :
+  let A := mkAst 2 2 2 [[[1;2]]; [[2];[1]]] [(0,1,1);(0,2,1)] [] [(0,1,2,[[1];[2]]); (0,0,1,[])] in
+  let lys := map (fun toks : list string => mkLayout " " (repeat "  "%string (pred (length toks))) " ") (ast_lines 3 A) in
+  nonneg_ast 3 A = true /\ wf_ast 3 true A = true /\
+  instance_eqb (denote 3 true A)
+    (match import_model (render_pad 3 A [[2;0;1];[1;3;2];[0;0;2;1]]%nat lys ["x"%string] false) 3 true with
+     | Ok M => M | Crash _ => denote 3 false A end) = true.
+Proof. vm_compute. repeat split; reflexivity. Qed.
